@@ -58,6 +58,8 @@ FILE_ITEMS: Dict[str, Dict[str, bytes]] = {
     'huge-file': {'pk/m.py': ('x = 1\n' * 20000).encode()}, 'no-newline-eof': {'pk/m.py': b'def f(): "doc"'},
     'name-dash': {'pk/a-b.py': b'x = 1\n'}, 'name-keyword': {'pk/class.py': b'x = 1\n'}, 'name-unicode': {'pk/\u00e9t\u00e9.py': b'def f(): "doc"\n'}, 'name-space': {'pk/a b.py': b'x = 1\n'},
     'name-percent': {'pk/a%41b.py': b'x = 1\n'}, 'name-hash': {'pk/a#b.py': b'x = 1\n'}, 'name-dot': {'pk/a.b.py': b'x = 1\n'}, 'name-digit': {'pk/1st.py': b'x = 1\n'}, 'name-html': {'pk/<b>&.py': b'x = 1\n'},
+    'name-newline': {'pk/a\nb.py': b'x = 1\n'}, 'name-tab-quote': {'pk/a\t"b\'.py': b'x = 1\n'}, 'name-nonutf8': {b'pk/a\xffb.py'.decode('utf-8', 'surrogateescape'): b'def f(): "doc"\n'},
+    'name-very-long': {'pk/' + 'm' * 240 + '.py': b'class K:\n    "d"\n'},
     'main-module': {'pk/__main__.py': b'x = 1\n'}, 'module-and-package': {'pk/m.py': b'x = 1\n', 'pk/m/__init__.py': b'y = 1\n'}, 'hidden-file': {'pk/.hidden.py': b'x = 1\n'},
     'subdir-without-init': {'pk/sub/mod.py': b'x = 1\n'}, 'broken-subpackage-init': {'pk/sub/__init__.py': b'def (:\n', 'pk/sub/mod.py': b'def g(): "doc"\n'},
     'pyi-next-to-py': {'pk/m.py': b'def f(): pass\n', 'pk/m.pyi': b'def f() -> int: ...\n'}, 'so-file': {'pk/ext.so': b'\x7fELF not really'}, 'pyc-file': {'pk/m.pyc': b'\x00\x00'},
